@@ -26,6 +26,11 @@ let c18_parse_fn (ar : Float64.t arith) toks : (Float64.t -> Float64.t) option *
     (Some (c18_tf_pow ar (c18_unhex k) (c18_unhex m) (c18_unhex c)), r)
   | "SHPOW" :: k :: r0 :: p :: r ->
     (Some (c18_tf_shpow ar (c18_unhex k) (c18_unhex r0) (c18_nat (int_of_string p))), r)
+  | "PWT" :: k :: r ->
+    let k = int_of_string k in
+    let (xs, r) = c18_take k r in
+    let (ys, r) = c18_take k r in
+    (Some (c18_tf_pwt ar (List.map c18_unhex xs) (List.map c18_unhex ys)), r)
   | _ -> failwith "bad function spec"
 let c18_root (ar : Float64.t arith) (toks : string list) : string =
   let (f, r) = c18_parse_fn ar toks in
@@ -58,3 +63,59 @@ let c18_pw (ar : Float64.t arith) (toks : string list) : string =
         | Some (Some y) -> "OK " ^ c18_hex y)
      | _ -> failwith "bad PIECEWISE case")
   | _ -> failwith "bad PIECEWISE case"
+
+(* NEST: nested solves.  The model is a pure function, so every activation is simply run on its own:
+   the residual of a level with an inner level calls the model's find_root for the inner level; the
+   trace re-runs each inner activation at the evaluation points the outer activation reports. *)
+exception C18_panic
+type c18_level = { lf : Float64.t -> Float64.t; ld : (Float64.t -> Float64.t) option;
+                   lx0 : Float64.t; la : Float64.t; lb : Float64.t; ltol : Float64.t; lconv : Float64.t;
+                   ln : int; ls : Float64.t; lt : Float64.t }
+let c18_nan = Float64.of_float Float.nan
+let rec c18_resid ar (levels : c18_level list) (p : Float64.t) : Float64.t -> Float64.t =
+  match levels with
+  | [] -> failwith "no level"
+  | [l] -> (fun x -> c18_tf_nest_inner ar (l.lf x) l.lt p)
+  | l :: rest ->
+    (fun x ->
+       match c18_solve ar rest x with
+       | None -> raise C18_panic
+       | Some (((y, _), _), _) -> c18_tf_nest_outer ar (l.lf x) l.lt p l.ls y)
+and c18_solve ar (levels : c18_level list) (p : Float64.t) =
+  match levels with
+  | [] -> failwith "no level"
+  | l :: _ -> c18_find_root ar (c18_resid ar levels p) l.ld l.ltol l.lconv l.lx0 l.la l.lb (c18_nat l.ln)
+let rec c18_trace ar (levels : c18_level list) (lvl : int) (p : Float64.t) (acc : string list ref) : unit =
+  match c18_solve ar levels p with
+  | None -> raise C18_panic
+  | Some (((x, delta), evals), devals) ->
+    let pts = List.map (fun e -> match e with None -> c18_nan | Some v -> v) evals in
+    (match levels with
+     | _ :: (_ :: _ as rest) -> List.iter (fun e -> c18_trace ar rest (lvl + 1) e acc) pts
+     | _ -> ());
+    let resid = c18_resid ar levels p in
+    let b = Buffer.create 256 in
+    let fl tag l = Buffer.add_string b (" " ^ tag ^ " " ^ string_of_int (List.length l));
+      List.iter (fun v -> Buffer.add_char b ' '; Buffer.add_string b (c18_hex v)) l in
+    Buffer.add_string b ("L " ^ string_of_int lvl ^ " P " ^ c18_hex p ^ " X " ^ c18_hex x ^ " " ^ c18_hex delta);
+    fl "E" pts; fl "V" (List.map resid pts); fl "D" devals;
+    acc := Buffer.contents b :: !acc
+let c18_nest (ar : Float64.t arith) (toks : string list) : string =
+  match toks with
+  | depth :: r ->
+    let rec levels k r = if k = 0 then [] else
+        let (f, r) = c18_parse_fn ar r in
+        let (d, r) = c18_parse_fn ar r in
+        (match f, r with
+         | Some f, x0 :: a :: b :: tol :: conv :: n :: s :: t :: r ->
+           { lf = f; ld = d; lx0 = c18_unhex x0; la = c18_unhex a; lb = c18_unhex b; ltol = c18_unhex tol;
+             lconv = c18_unhex conv; ln = int_of_string n; ls = c18_unhex s; lt = c18_unhex t } :: levels (k - 1) r
+         | _ -> failwith "bad NEST level") in
+    let ls = levels (int_of_string depth) r in
+    let acc = ref [] in
+    (try
+       c18_trace ar ls 1 (Float64.of_float 0.0) acc;
+       let tr = List.rev !acc in
+       "OK T " ^ string_of_int (List.length tr) ^ " | " ^ String.concat " | " tr
+     with C18_panic -> "PANIC")
+  | _ -> failwith "bad NEST case"
